@@ -118,6 +118,10 @@ class SlopeTransformer(_PanelToPanelTransformer):
         m : an int corresponding to the gradient of the best fit line.
         """
 
+        # statistics.mean keeps the type of its data: for integer-typed values
+        # (numpy integers) it would truncate the mean
+        Y = [float(y) for y in Y]
+
         # Create a list that contains 1,2,3,4,...,len(Y) for the x coordinates.
         X = [(i + 1) for i in range(len(Y))]
 
